@@ -1256,6 +1256,10 @@ dt_strfdtdur(
 		bp = buf;
 		goto out;
 	}
+	if (UNLIKELY(fmt == NULL)) {
+		/* time-only durations have no default format either */
+		goto try_time;
+	}
 
 	/* assign and go */
 	bp = buf;
